@@ -347,3 +347,47 @@ func C10_OperandBytes() {
 	verif.Assert(xerr == nil && out.String() == want, "executes to the expected output")
 	verif.Reach("checked")
 }
+
+// C10_Expr: static well-formedness (tiling, jump targets, one stack depth per
+// instruction on every path) of every expression of three binary operators
+// (one representative per precedence level; thorough: all twelve operators) in
+// four parenthesis / prefix forms, as a print statement, a variable
+// initialiser and a block field.
+func C10_Expr() {
+	reps := []string{"or", "and", "==", "<", "+", "*", "!=", ">="}
+	if verif.Tier() == 1 {
+		reps = c01BinOps
+	}
+	op1 := reps[verif.Choice("op1", len(reps))]
+	op2 := reps[verif.Choice("op2", len(reps))]
+	op3 := reps[verif.Choice("op3", len(reps))]
+	var e string
+	switch verif.Choice("form", 4) {
+	case 0:
+		e = "a " + op1 + " 2 " + op2 + " b " + op3 + " 4"
+	case 1:
+		e = "not (a " + op1 + " 2) " + op2 + " not (b " + op3 + " 4)"
+	case 2:
+		e = "a " + op1 + " (2 " + op2 + " (b " + op3 + " -4))"
+	default:
+		e = "(a = 1 " + op1 + " 2) " + op2 + " not not b " + op3 + " (b = 4)"
+	}
+	var src string
+	switch verif.Choice("place", 3) {
+	case 0:
+		src = "var a = 1\nvar b = 3\nprint " + e + "\n"
+	case 1:
+		src = "var a = 1\nvar b = 3\nvar c = " + e + "\nprint c\n"
+	default:
+		src = "var a = 1\nvar b = 3\ndef t {\n f = " + e + "\n g = f\n}\n"
+	}
+	out, log := &symio.Writer{}, &symio.Writer{}
+	p, err := bcl.Parse([]byte(src), "src", bcl.OptOutput(out), bcl.OptLogger(log))
+	if err != nil {
+		panic("c10: program rejected: " + src + ": " + log.String())
+	}
+	c10Static(p)
+	_, _, xerr := bcl.Execute(p)
+	verif.Assert(errClass(xerr) != "internal", "no internal error (non-empty stack at RET)")
+	verif.Reach("checked")
+}
